@@ -299,17 +299,46 @@ func (packet *Packet) readPacket(connection net.Conn) ([]byte, error) {
 		return data, nil
 	}
 
-	var buf []byte
-	buf, err := packet.readPacket(connection)
-	if err != nil {
-		return nil, err
+	// a payload of MaxPayloadLen bytes or more is sent in several packets: it continues up to and including the first
+	// packet shorter than MaxPayloadLen (which may be empty). The header kept for the whole payload is the one of its
+	// first packet; Dump splits the payload again.
+	fragmentHeader := make([]byte, PacketHeaderSize)
+	for {
+		if _, err := io.ReadFull(connection, fragmentHeader); err != nil {
+			return nil, err
+		}
+		fragmentLength := int(uint32(fragmentHeader[0]) | uint32(fragmentHeader[1])<<8 | uint32(fragmentHeader[2])<<16)
+		fragment := make([]byte, fragmentLength)
+		if _, err := io.ReadFull(connection, fragment); err != nil {
+			return nil, err
+		}
+		data = append(data, fragment...)
+		if fragmentLength < MaxPayloadLen {
+			return data, nil
+		}
 	}
-	return append(data, buf...), nil
 }
 
 // Dump returns packet header and data as []byte
 func (packet *Packet) Dump() []byte {
-	return append(packet.header, packet.data...)
+	if len(packet.data) < MaxPayloadLen {
+		return append(packet.header, packet.data...)
+	}
+	// split into packets of MaxPayloadLen bytes with consecutive sequence numbers, the last one shorter (maybe empty)
+	output := make([]byte, 0, len(packet.data)+PacketHeaderSize*(len(packet.data)/MaxPayloadLen+1))
+	sequenceNumber := packet.header[SequenceIDIndex]
+	for data := packet.data; ; sequenceNumber++ {
+		n := len(data)
+		if n > MaxPayloadLen {
+			n = MaxPayloadLen
+		}
+		output = append(output, byte(n), byte(n>>8), byte(n>>16), sequenceNumber)
+		output = append(output, data[:n]...)
+		data = data[n:]
+		if n < MaxPayloadLen {
+			return output
+		}
+	}
 }
 
 // ReadPacket header and payload from connection or return error
